@@ -28,6 +28,7 @@ Proof.
 Qed.
 
 Section Builtin.
+Variable v : variant.
 Variable openable : nat -> bool.
 Variable B : nat -> option entry.
 Variable o1 o2 : obj.
@@ -97,46 +98,173 @@ Proof.
       exists p', out', err', eo', ee'. split; [exact E|]. split; [exact R'|]. exact K'.
 Qed.
 
-Lemma print_rep : forall rs is_out p L,
-  lookahead_leak rs = false -> Rep B L (tab p) ->
-  Rep B L (tab (fst (builtin_print openable rs is_out p))).
+(* ---- the proposed left-to-right fold (notes/C04-fix-3.patch) ---- *)
+Definition objof (o : option nat) (e : entry) (d : obj) : obj := match o with Some _ => fst e | None => d end.
+Definition allopen (rs : list redir) : bool :=
+  forallb (fun r => negb (is_file_redir r) || openable (target_path (r_to r))) rs.
+
+Lemma open_cand_rep_ok : forall r p l,
+  openable (target_path (r_to r)) = true -> Rep B l (tab p) ->
+  exists p1 n, open_cand openable r p = (p1, Some n) /\
+               Rep B ((n, (OFile (target_path (r_to r)) (wmode (r_app r)), true)) :: l) (tab p1).
 Proof.
-  intros rs is_out p L NL R. unfold builtin_print.
-  destruct (gsf_spec rs None None p (o1, c1) (o1, c1) L NL R) as (p' & o & e & eo & ee & E & R' & _).
+  intros r p l O R. unfold open_cand. cbn zeta. rewrite O.
+  destruct (p_open (target_path (r_to r)) (wmode (r_app r)) p) as [q n] eqn:EP.
+  exists q, n. split; [reflexivity|]. eapply p_open_rep; eauto.
+Qed.
+
+Lemma fold_spec : forall rs out err p eo ee L,
+  allopen rs = true ->
+  Rep B (ol out eo ++ ol err ee ++ L) (tab p) ->
+  exists p' out' err' eo' ee',
+    get_std_fds_fold openable rs out err p = (p', out', err') /\
+    Rep B (ol out' eo' ++ ol err' ee' ++ L) (tab p') /\
+    (objof out' eo' o1, objof err' ee' o2) = posix_sinks rs (objof out eo o1, objof err ee o2).
+Proof.
+  induction rs as [|r rest IH]; intros out err p eo ee L AO R.
+  - cbn. exists p, out, err, eo, ee. auto.
+  - cbn [allopen forallb] in AO. apply andb_true_iff in AO. destruct AO as (AO1 & AO2). fold (allopen rest) in AO2.
+    cbn [get_std_fds_fold].
+    change (posix_sinks (r :: rest) (objof out eo o1, objof err ee o2))
+      with (posix_sinks rest (posix_redirect (objof out eo o1, objof err ee o2) r)).
+    destruct (r_fd r) eqn:Efd.
+    + (* descriptor 1 *)
+      assert (exists p1 n ec, (match r_to r with
+                               | TAmp2 => p_dup (match err with Some fd => fd | None => 2 end) p
+                               | _ => open_cand openable r p end) = (p1, Some n) /\
+                Rep B ((n, ec) :: ol out eo ++ ol err ee ++ L) (tab p1) /\
+                fst ec = fst (posix_redirect (objof out eo o1, objof err ee o2) r)) as (p1 & n & ec & E1 & R1 & OB).
+      { assert (FILE : is_file_redir r = true -> exists p1 n ec, open_cand openable r p = (p1, Some n) /\
+                  Rep B ((n, ec) :: ol out eo ++ ol err ee ++ L) (tab p1) /\
+                  fst ec = fst (posix_redirect (objof out eo o1, objof err ee o2) r)).
+        { intro HF. rewrite HF in AO1. cbn in AO1.
+          destruct (open_cand_rep_ok r p _ AO1 R) as (q & n & E & RQ).
+          exists q, n, (OFile (target_path (r_to r)) (wmode (r_app r)), true). split; [exact E|]. split; [exact RQ|].
+          rewrite (posix_redirect_file1 r (r_to r) _ _ Efd eq_refl HF). reflexivity. }
+        destruct (r_to r) eqn:Eto; try (apply FILE; unfold is_file_redir; rewrite Efd, Eto; reflexivity).
+        (* 1>&2: a copy of the current stderr target *)
+        assert (exists oo co, lookup (tab p) (match err with Some fd => fd | None => 2 end) = Some (oo, co) /\ oo = objof err ee o2)
+          as (oo & co & LK & OO).
+        { destruct err as [fd|]; cbn [ol objof].
+          - destruct ee as [oe ce]. exists oe, ce. split; [|reflexivity].
+            eapply rep_lookup_in; [exact R | apply in_or_app; right; left; reflexivity].
+          - exists o2, c2. split; [|reflexivity]. rewrite (rep_lookup _ _ _ _ R); [exact HB2 | eapply base_not_key; eauto]. }
+        destruct (p_dup_lookup _ _ _ _ _ _ R LK) as (q & d & ED & RD).
+        exists q, d, (oo, false). split; [exact ED|]. split; [exact RD|].
+        unfold posix_redirect. rewrite Efd, Eto. cbn [fst snd]. exact OO. }
+      rewrite E1.
+      assert (R2 : Rep B (ol (Some n) ec ++ ol err ee ++ L) (tab (Pipeline.oclose out p1))).
+      { apply (oclose_rep B (ol (Some n) ec) out eo (ol err ee ++ L)). exact R1. }
+      destruct (IH (Some n) err (Pipeline.oclose out p1) ec ee L AO2 R2) as (p' & out' & err' & eo' & ee' & E & R' & K').
+      exists p', out', err', eo', ee'. split; [exact E|]. split; [exact R'|].
+      rewrite K'. cbn [objof]. rewrite OB. f_equal.
+      destruct (posix_redirect (objof out eo o1, objof err ee o2) r) as [a b] eqn:PR. cbn [fst]. f_equal.
+      unfold posix_redirect in PR. rewrite Efd in PR. destruct (r_to r); injection PR as <- <-; reflexivity.
+    + (* descriptor 2 *)
+      assert (exists p1 n ec, (match r_to r with
+                               | TAmp1 => p_dup (match out with Some fd => fd | None => 1 end) p
+                               | _ => open_cand openable r p end) = (p1, Some n) /\
+                Rep B ((n, ec) :: ol out eo ++ ol err ee ++ L) (tab p1) /\
+                fst ec = snd (posix_redirect (objof out eo o1, objof err ee o2) r)) as (p1 & n & ec & E1 & R1 & OB).
+      { assert (FILE : is_file_redir r = true -> exists p1 n ec, open_cand openable r p = (p1, Some n) /\
+                  Rep B ((n, ec) :: ol out eo ++ ol err ee ++ L) (tab p1) /\
+                  fst ec = snd (posix_redirect (objof out eo o1, objof err ee o2) r)).
+        { intro HF. rewrite HF in AO1. cbn in AO1.
+          destruct (open_cand_rep_ok r p _ AO1 R) as (q & n & E & RQ).
+          exists q, n, (OFile (target_path (r_to r)) (wmode (r_app r)), true). split; [exact E|]. split; [exact RQ|].
+          rewrite (posix_redirect_file2 r (r_to r) _ _ Efd eq_refl HF). reflexivity. }
+        destruct (r_to r) eqn:Eto; try (apply FILE; unfold is_file_redir; rewrite Efd, Eto; reflexivity).
+        assert (exists oo co, lookup (tab p) (match out with Some fd => fd | None => 1 end) = Some (oo, co) /\ oo = objof out eo o1)
+          as (oo & co & LK & OO).
+        { destruct out as [fd|]; cbn [ol objof].
+          - destruct eo as [oe ce]. exists oe, ce. split; [|reflexivity].
+            eapply rep_lookup_in; [exact R | left; reflexivity].
+          - exists o1, c1. split; [|reflexivity]. rewrite (rep_lookup _ _ _ _ R); [exact HB1 | eapply base_not_key; eauto]. }
+        destruct (p_dup_lookup _ _ _ _ _ _ R LK) as (q & d & ED & RD).
+        exists q, d, (oo, false). split; [exact ED|]. split; [exact RD|].
+        unfold posix_redirect. rewrite Efd, Eto. cbn [fst snd]. exact OO. }
+      rewrite E1.
+      assert (R2a : Rep B (((n, ec) :: ol out eo) ++ L) (tab (Pipeline.oclose err p1))).
+      { apply (oclose_rep B ((n, ec) :: ol out eo) err ee L). eapply rep_leq; [exact R1 | leq]. }
+      assert (R2 : Rep B (ol out eo ++ ol (Some n) ec ++ L) (tab (Pipeline.oclose err p1))).
+      { eapply rep_leq; [eapply rep_perm; [apply Permutation.Permutation_app_tail;
+                                           apply (Permutation.Permutation_app_comm [(n, ec)] (ol out eo)) | exact R2a] | leq]. }
+      destruct (IH out (Some n) (Pipeline.oclose err p1) eo ec L AO2 R2) as (p' & out' & err' & eo' & ee' & E & R' & K').
+      exists p', out', err', eo', ee'. split; [exact E|]. split; [exact R'|].
+      rewrite K'. cbn [objof]. rewrite OB. f_equal.
+      destruct (posix_redirect (objof out eo o1, objof err ee o2) r) as [a b] eqn:PR. cbn [snd]. f_equal.
+      unfold posix_redirect in PR. rewrite Efd in PR. destruct (r_to r); injection PR as <- <-; reflexivity.
+Qed.
+
+(* which version of the function may be used on which lists *)
+Definition fds_ok (rs : list redir) : Prop :=
+  (v_bfold v = true /\ allopen rs = true) \/ (v_bfold v = false /\ lookahead_leak rs = false).
+
+Lemma std_fds_spec : forall rs p L,
+  fds_ok rs -> Rep B L (tab p) ->
+  exists p' o e eo ee, std_fds v openable rs p = (p', o, e) /\ Rep B (ol o eo ++ ol e ee ++ L) (tab p') /\
+    (v_bfold v = true -> (objof o eo o1, objof e ee o2) = posix_sinks rs (o1, o2)).
+Proof.
+  intros rs p L [(VF & AO)|(VF & NL)] R; unfold std_fds; rewrite VF.
+  - destruct (fold_spec rs None None p (o1, c1) (o1, c1) L AO R) as (p' & o & e & eo & ee & E & R' & K).
+    exists p', o, e, eo, ee. split; [exact E|]. split; [exact R'|]. intros _. exact K.
+  - destruct (gsf_spec rs None None p (o1, c1) (o1, c1) L NL R) as (p' & o & e & eo & ee & E & R' & _).
+    exists p', o, e, eo, ee. split; [exact E|]. split; [exact R'|]. discriminate.
+Qed.
+
+Lemma print_rep : forall rs is_out p L,
+  fds_ok rs -> Rep B L (tab p) ->
+  Rep B L (tab (fst (builtin_print v openable rs is_out p))) /\
+  (v_bfold v = true ->
+   snd (builtin_print v openable rs is_out p)
+   = Some (if is_out then fst (posix_sinks rs (o1, o2)) else snd (posix_sinks rs (o1, o2)))).
+Proof.
+  intros rs is_out p L OK R. unfold builtin_print.
+  destruct (std_fds_spec rs p L OK R) as (p' & o & e & eo & ee & E & R' & K).
   rewrite E.
   assert (G : forall mine other em eoth bfd ob cb,
             B bfd = Some (ob, cb) ->
             Rep B (ol mine em ++ ol other eoth ++ L) (tab p') ->
-            Rep B L (tab (fst (let p0 := Pipeline.oclose other p' in
-                               let '(p1, fd) := match mine with Some fd => (p0, Some fd) | None => p_dup bfd p0 end in
-                               match fd with
-                               | Some fd => (p_close fd (p_ev (EWrite fd) p1), option_map fst (lookup (tab p1) fd))
-                               | None => (p1, None)
-                               end)))).
+            let res := (let p0 := Pipeline.oclose other p' in
+                        let '(p1, fd) := match mine with Some fd => (p0, Some fd) | None => p_dup bfd p0 end in
+                        match fd with
+                        | Some fd => (p_close fd (p_ev (EWrite fd) p1), option_map fst (lookup (tab p1) fd))
+                        | None => (p1, None)
+                        end) in
+            Rep B L (tab (fst res)) /\ snd res = Some (objof mine em ob)).
   { intros mine other em eoth bfd ob cb HB RR. cbv zeta.
     pose proof (oclose_rep B (ol mine em) other eoth L p' RR) as R1.
-    destruct mine as [fd|]; cbn [ol app] in R1.
-    - cbn [fst]. rc R1 (@nil (nat * entry)) fd em L.
+    destruct mine as [fd|]; cbn [ol app objof] in *.
+    - cbn [fst snd]. split; [rc R1 (@nil (nat * entry)) fd em L|].
+      rewrite (rep_lookup_in _ _ _ _ _ R1 (or_introl eq_refl)). reflexivity.
     - assert (L1 : lookup (tab (Pipeline.oclose other p')) bfd = Some (ob, cb)).
       { rewrite (rep_lookup _ _ _ _ R1); [exact HB | eapply base_not_key; eauto]. }
-      destruct (p_dup_lookup _ _ _ _ _ _ R1 L1) as (q & d & ED & RD). rewrite ED. cbn [fst].
-      rc RD (@nil (nat * entry)) d (ob, false) L. }
+      destruct (p_dup_lookup _ _ _ _ _ _ R1 L1) as (q & d & ED & RD). rewrite ED. cbn [fst snd].
+      split; [rc RD (@nil (nat * entry)) d (ob, false) L|].
+      rewrite (rep_lookup_in _ _ _ _ _ RD (or_introl eq_refl)). reflexivity. }
   destruct is_out.
-  - apply (G o e eo ee 1 o1 c1 HB1 R').
-  - apply (G e o ee eo 2 o2 c2 HB2).
-    eapply rep_leq; [eapply rep_perm; [apply Permutation.Permutation_app_tail; apply Permutation.Permutation_app_comm |
-                                       eapply rep_leq; [exact R' | rewrite app_assoc; reflexivity]] | leq].
+  - destruct (G o e eo ee 1 o1 c1 HB1 R') as (G1 & G2). split; [exact G1|].
+    intro VF. etransitivity; [exact G2|]. rewrite <- (K VF). reflexivity.
+  - assert (RS : Rep B (ol e ee ++ ol o eo ++ L) (tab p')).
+    { eapply rep_leq; [eapply rep_perm; [apply Permutation.Permutation_app_tail; apply Permutation.Permutation_app_comm |
+                                         eapply rep_leq; [exact R' | rewrite app_assoc; reflexivity]] | leq]. }
+    destruct (G e o ee eo 2 o2 c2 HB2 RS) as (G1 & G2). split; [exact G1|].
+    intro VF. etransitivity; [exact G2|]. rewrite <- (K VF). reflexivity.
 Qed.
 
 Lemma prints_rep : forall rs prints p L,
-  lookahead_leak rs = false -> Rep B L (tab p) ->
-  Rep B L (tab (fst (builtin_prints openable rs prints p))).
+  fds_ok rs -> Rep B L (tab p) ->
+  Rep B L (tab (fst (builtin_prints v openable rs prints p))) /\
+  (v_bfold v = true ->
+   snd (builtin_prints v openable rs prints p)
+   = map (fun is_out : bool => Some (if is_out then fst (posix_sinks rs (o1, o2)) else snd (posix_sinks rs (o1, o2)))) prints).
 Proof.
-  intros rs. induction prints as [|b rest IH]; intros p L NL R; [exact R|].
-  cbn [builtin_prints].
-  pose proof (print_rep rs b p L NL R) as R1.
-  destruct (builtin_print openable rs b p) as [p1 o]. cbn [fst] in R1.
-  specialize (IH p1 L NL R1). destruct (builtin_prints openable rs rest p1) as [p2 os]. exact IH.
+  intros rs. induction prints as [|b rest IH]; intros p L OK R; [split; [exact R | reflexivity]|].
+  cbn [builtin_prints map].
+  destruct (print_rep rs b p L OK R) as (R1 & S1).
+  destruct (builtin_print v openable rs b p) as [p1 o]. cbn [fst snd] in R1, S1.
+  destruct (IH p1 L OK R1) as (R2 & S2). destruct (builtin_prints v openable rs rest p1) as [p2 os].
+  cbn [fst snd] in *. split; [exact R2|]. intro VF. rewrite (S1 VF), (S2 VF). reflexivity.
 Qed.
 
 Lemma preopen_rep : forall rs p L, Rep B L (tab p) -> Rep B L (tab (fst (builtin_preopen openable rs p))).
@@ -151,13 +279,28 @@ Proof.
     rc R1 (@nil (nat * entry)) n (OFile (target_path (r_to r)) (wmode (r_app r)), true) L. }
   destruct (r_fd r), (r_to r); try exact FILE; apply IH; exact R.
 Qed.
+Lemma preopen_allopen : forall rs p, snd (builtin_preopen openable rs p) = true -> allopen rs = true.
+Proof.
+  induction rs as [|r rest IH]; intros p H; [reflexivity|]. cbn [builtin_preopen] in H. cbn [allopen forallb].
+  fold (allopen rest).
+  assert (FILE : is_file_redir r = true ->
+            snd (let path := target_path (r_to r) in
+                 if openable path then let '(p1, n) := p_open path (wmode (r_app r)) p in builtin_preopen openable rest (p_close n p1)
+                 else (p_openfail path (wmode (r_app r)) p, false)) = true ->
+            (negb (is_file_redir r) || openable (target_path (r_to r))) && allopen rest = true).
+  { intros HF HH. cbv zeta in HH. rewrite HF. cbn [negb orb]. destruct (openable (target_path (r_to r))); [|discriminate HH].
+    destruct (p_open (target_path (r_to r)) (wmode (r_app r)) p) as [p1 n]. cbn [andb]. eapply IH; eauto. }
+  unfold is_file_redir in *. destruct (r_fd r), (r_to r); try (apply FILE; [reflexivity | exact H]);
+    cbn [negb orb andb]; eapply IH; eauto.
+Qed.
+
 End Builtin.
 
 (* the shell's table after a builtin that ran in the shell itself *)
 Theorem builtin_restored : forall v fail_at openable pl sh st o1 c1 o2 c2,
   v_bcap v = true ->
   p_stages pl = [st] -> s_kind st = KBuiltin ->
-  lookahead_leak (s_redirs st) = false ->
+  ((v_bfold v = true /\ v_bunop v = true) \/ (v_bfold v = false /\ lookahead_leak (s_redirs st) = false)) ->
   lookup (tab sh) 1 = Some (o1, c1) -> lookup (tab sh) 2 = Some (o2, c2) ->
   teq_tab (res_shell (run_pipeline v fail_at openable pl sh)) (tab sh).
 Proof.
@@ -179,18 +322,21 @@ Proof.
                let '(sh1, okb) := if v_bunop v then builtin_preopen openable (s_redirs st) q else (q, true) in
                if negb okb then mkres (done sh1) [] true []
                else if p_capture pl then mkres (done sh1) [] false []
-               else let '(sh2, sinks) := builtin_prints openable (s_redirs st) (s_prints st) sh1 in
+               else let '(sh2, sinks) := builtin_prints v openable (s_redirs st) (s_prints st) sh1 in
                     mkres (done sh2) [] false sinks)) (tab sh)).
   { intros capo cape q CO R. cbv zeta.
     assert (R1 : Rep (lookup (tab sh)) (caplive capo cape)
                      (tab (fst (if v_bunop v then builtin_preopen openable (s_redirs st) q else (q, true))))).
     { destruct (v_bunop v); [apply preopen_rep; exact R | exact R]. }
-    destruct (if v_bunop v then builtin_preopen openable (s_redirs st) q else (q, true)) as [sh1 okb]. cbn [fst] in R1.
+    destruct (if v_bunop v then builtin_preopen openable (s_redirs st) q else (q, true)) as [sh1 okb] eqn:EPRE. cbn [fst] in R1.
+    assert (OKF : okb = true -> fds_ok v openable (s_redirs st)).
+    { intros ->. destruct NL as [(VF & VU)|(VF & NLK)]; [left|right; auto]. split; [exact VF|].
+      rewrite VU in EPRE. apply (preopen_allopen openable (s_redirs st) q). rewrite EPRE. reflexivity. }
     destruct okb; cbn [negb].
     - destruct (p_capture pl) eqn:EC.
       + cbn [res_shell]. apply DONE; auto; try (rewrite EC; exact CO).
-      + pose proof (prints_rep openable (lookup (tab sh)) o1 o2 c1 c2 H1 H2 (s_redirs st) (s_prints st) sh1 _ NL R1) as R2.
-        destruct (builtin_prints openable (s_redirs st) (s_prints st) sh1) as [sh2 sinks]. cbn [fst] in R2.
+      + pose proof (proj1 (prints_rep v openable (lookup (tab sh)) o1 o2 c1 c2 H1 H2 (s_redirs st) (s_prints st) sh1 _ (OKF eq_refl) R1)) as R2.
+        destruct (builtin_prints v openable (s_redirs st) (s_prints st) sh1) as [sh2 sinks]. cbn [fst] in R2.
         cbn [res_shell]. apply DONE; auto; try (rewrite EC; exact CO).
     - cbn [res_shell]. apply DONE; auto. }
   unfold mk_capture. destruct (p_capture pl) eqn:EC.
@@ -232,7 +378,7 @@ Proof.
   destruct (if v_bunop v then builtin_preopen openable (s_redirs st) q else (q, true)) as [sh1 okb].
   destruct okb; cbn [negb]; [|reflexivity].
   destruct (p_capture pl); [reflexivity|].
-  destruct (builtin_prints openable (s_redirs st) (s_prints st) sh1). reflexivity.
+  destruct (builtin_prints v openable (s_redirs st) (s_prints st) sh1). reflexivity.
 Qed.
 
 Lemma kids_ok_Forall : forall (Q : kid -> Prop) sts idx ks,
@@ -240,4 +386,41 @@ Lemma kids_ok_Forall : forall (Q : kid -> Prop) sts idx ks,
 Proof.
   induction sts as [|st r IH]; intros idx ks K; destruct ks as [|k kr]; cbn in K; try tauto; [constructor|].
   destruct K as (K1 & K2). constructor; [exact K1 | eapply IH; eauto].
+Qed.
+
+(* with the proposed fold (and d4ac685's pre-opening) the text of every print of a builtin that is alone on
+   its line goes where the POSIX left-to-right fold of the redirection list says *)
+Theorem builtin_sinks_fold : forall v fail_at openable pl sh st o1 c1 o2 c2,
+  v_bfold v = true -> v_bunop v = true ->
+  p_stages pl = [st] -> s_kind st = KBuiltin -> p_capture pl = false ->
+  lookup (tab sh) 1 = Some (o1, c1) -> lookup (tab sh) 2 = Some (o2, c2) ->
+  let r := run_pipeline v fail_at openable pl sh in
+  let sk := posix_sinks (s_redirs st) (o1, o2) in
+  (res_error r = false ->
+   res_sinks r = map (fun is_out : bool => Some (if is_out then fst sk else snd sk)) (s_prints st)) /\
+  (res_error r = true <-> allopen openable (s_redirs st) = false).
+Proof.
+  intros v fail_at openable pl sh st o1 c1 o2 c2 VF VU ES EK EC H1 H2. cbv zeta.
+  unfold run_pipeline. rewrite ES. cbn [length mk_pipes]. cbv zeta.
+  assert (SB : is_single_builtin pl = true) by (unfold is_single_builtin; rewrite ES, EK; reflexivity).
+  rewrite SB. unfold mk_capture. rewrite EC, VU.
+  pose proof (preopen_rep openable (lookup (tab sh)) (s_redirs st) sh [] (rep_init (tab sh))) as R1.
+  destruct (builtin_preopen openable (s_redirs st) sh) as [sh1 okb] eqn:EPRE. cbn [fst] in R1.
+  destruct okb; cbn [negb].
+  - assert (AO : allopen openable (s_redirs st) = true).
+    { apply (preopen_allopen openable (s_redirs st) sh). rewrite EPRE. reflexivity. }
+    assert (OK : fds_ok v openable (s_redirs st)) by (left; auto).
+    destruct (prints_rep v openable (lookup (tab sh)) o1 o2 c1 c2 H1 H2 (s_redirs st) (s_prints st) sh1 [] OK R1) as (_ & S2).
+    destruct (builtin_prints v openable (s_redirs st) (s_prints st) sh1) as [sh2 sinks]. cbn [snd] in S2.
+    cbn [res_error res_sinks]. split; [intros _; apply S2; exact VF|]. rewrite AO. split; discriminate.
+  - cbn [res_error res_sinks]. split; [discriminate|]. split; [intros _|reflexivity].
+    destruct (allopen openable (s_redirs st)) eqn:AO; [|reflexivity].
+    exfalso. clear R1.
+    assert (G : forall rs p, allopen openable rs = true -> snd (builtin_preopen openable rs p) = true).
+    { induction rs as [|r rest IH]; intros p A; [reflexivity|]. cbn [builtin_preopen]. cbn [allopen forallb] in A.
+      apply andb_true_iff in A. destruct A as (A1 & A2). fold (allopen openable rest) in A2.
+      unfold is_file_redir in A1. destruct (r_fd r), (r_to r); cbn [negb orb] in A1; try (apply IH; exact A2);
+        cbv zeta; rewrite A1;
+        match goal with |- context [p_open ?a ?b ?c] => destruct (p_open a b c) as [p1 n] end; apply IH; exact A2. }
+    specialize (G (s_redirs st) sh AO). rewrite EPRE in G. discriminate.
 Qed.
